@@ -349,7 +349,7 @@ PROPS = {
         "technique": 'TLC invariants of Quantile.tla + replay + TLC trace validation',
         "title": "quantile estimates stay inside the data range and bookkeeping is exact",
         "mc": [MC_Q, MC_QS],
-        "replay": [gen_q("big", "E0,E3,E15", maxlen=("7", "8")), gen_q("big", "E0", maxlen=("12", "13"), alphabet="GenAlphabet01"), gen_q("small", "E0,E11")],
+        "replay": [gen_q("big", "E0,E3,E15", maxlen=("7", "8")), gen_q("big", "E0", maxlen=("12", "13"), alphabet="GenAlphabet01"), gen_q("small", "E0,E11,E15")],
         "trace": [TR_Q],
         "rule": "len/is_empty/p()/NaN-only-when-empty/range/marker order after every observation of every enumerated stream and of "
                 "long recorded streams (validated by TLC as trace invariants); Quantile::new must panic for seven invalid p",
